@@ -48,14 +48,14 @@ func TestC13(t *testing.T) {
 	r.Assume("a cache document is 'well-formed' iff it is a JSON object whose every key is non-empty and every entry an object with exactly the documented exact-case fields and types; documents that are not JSON or not an object are certainly invalid; in between either source is accepted per secret",
 		"crash model for FileCache.Write: process kill at system-call boundaries plus real short writes (see crash part)")
 	tmp := evid.TempDir(t)
-	n := r.N(400, 8000)
+	n := r.N(1500, 20000)
 	for i := 0; i < n; i++ {
 		if r.Skip(i) {
 			continue
 		}
 		historyCase(t, r, i, tmp)
 	}
-	nf := r.N(6000, 300000)
+	nf := r.N(40000, 600000)
 	for i := 0; i < nf; i++ {
 		if r.Skip(n + i) {
 			continue
@@ -359,6 +359,9 @@ func firstKey(m map[string]bool) string {
 
 // wellFormed is a strict reading of the documented shape.
 func wellFormed(b []byte) (map[string]*centry, bool) {
+	if !json.Valid(b) { // exactly one JSON value, nothing after it
+		return nil, false
+	}
 	dec := json.NewDecoder(bytes.NewReader(b))
 	dec.DisallowUnknownFields()
 	var raw map[string]json.RawMessage
